@@ -29,6 +29,7 @@ type Access struct {
 type sharedAnalysis struct {
 	c         *Ctx
 	sharedPar map[*ssa.Parameter]bool // parameters that may point into shared objects
+	aliasPar  map[*ssa.Parameter]bool // pointer parameters whose pointee is a private struct copy of a shared object: its map/slice/pointer fields still alias shared data
 	Acc       []*Access
 	fnLocks   map[*ssa.Function]map[string]bool // locks held at every call site of fn
 	memo      map[ssa.Value]bool
@@ -67,6 +68,25 @@ func (sa *sharedAnalysis) sharedBase(v ssa.Value, depth int) bool {
 		sa.memo[v] = r
 	}
 	return r
+}
+
+// copyOfShared: v points to a local struct that was initialised by copying a shared struct value.
+func (sa *sharedAnalysis) copyOfShared(v ssa.Value) bool {
+	switch x := v.(type) {
+	case *ssa.Parameter:
+		return sa.aliasPar[x]
+	case *ssa.Alloc:
+		if refs := x.Referrers(); refs != nil {
+			for _, r := range *refs {
+				if st, ok := r.(*ssa.Store); ok && st.Addr == x {
+					if _, isStruct := st.Val.Type().Underlying().(*types.Struct); isStruct && sa.sharedBase(st.Val, 1) {
+						return true
+					}
+				}
+			}
+		}
+	}
+	return false
 }
 
 func (sa *sharedAnalysis) sharedBase1(v ssa.Value, depth int) bool {
@@ -136,6 +156,33 @@ func (sa *sharedAnalysis) sharedBase1(v ssa.Value, depth int) bool {
 					}
 				}
 				return sh
+			}
+			// a map/slice/pointer field read out of a local struct copy of a shared object still refers
+			// to the shared data (`reader := *d; reader.cache[k] = v`)
+			switch x.Type().Underlying().(type) {
+			case *types.Pointer, *types.Map, *types.Slice:
+				root := x.X
+				for {
+					if fa, ok := root.(*ssa.FieldAddr); ok {
+						root = fa.X
+						continue
+					}
+					break
+				}
+				if pr := spilledParam(root); pr != nil && root != x.X && sa.aliasPar[pr] {
+					return true
+				}
+				if a, ok := root.(*ssa.Alloc); ok && root != x.X {
+					if refs := a.Referrers(); refs != nil {
+						for _, r := range *refs {
+							if st, ok := r.(*ssa.Store); ok && st.Addr == a {
+								if _, isStruct := st.Val.Type().Underlying().(*types.Struct); isStruct && sa.sharedBase(st.Val, depth+1) {
+									return true
+								}
+							}
+						}
+					}
+				}
 			}
 			return sa.sharedBase(x.X, depth+1)
 		}
@@ -291,7 +338,7 @@ func newSharedAnalysis(c *Ctx) *sharedAnalysis {
 		roots []*ssa.Function
 		reach map[*ssa.Function]bool
 	}{{"sync", []*ssa.Function{c.Sync}, c.RSync}, {"api", c.API, c.RAPI}} {
-		sa := &sharedAnalysis{c: c, sharedPar: map[*ssa.Parameter]bool{}, fnLocks: map[*ssa.Function]map[string]bool{}, memo: map[ssa.Value]bool{}, busy: map[ssa.Value]bool{}}
+		sa := &sharedAnalysis{c: c, sharedPar: map[*ssa.Parameter]bool{}, aliasPar: map[*ssa.Parameter]bool{}, fnLocks: map[*ssa.Function]map[string]bool{}, memo: map[ssa.Value]bool{}, busy: map[ssa.Value]bool{}}
 		seed := func(f *ssa.Function) {
 			for _, p := range f.Params {
 				if _, ok := p.Type().Underlying().(*types.Pointer); ok && singletonTypes[namedShort(p.Type())] {
@@ -325,6 +372,10 @@ func newSharedAnalysis(c *Ctx) *sharedAnalysis {
 							break
 						}
 						p := params[pi]
+						if !sa.aliasPar[p] && sa.copyOfShared(a) {
+							sa.aliasPar[p] = true
+							changed = true
+						}
 						if sa.sharedPar[p] {
 							continue
 						}
@@ -365,8 +416,8 @@ func heldLocks(ins ssa.Instruction) map[string]bool {
 			return
 		}
 		n := calleeName(ci.Common())
-		isLock := n == "sync.(*Mutex).Lock" || n == "sync.(*RWMutex).Lock" || n == "sync.(*RWMutex).RLock"
-		isUnlock := n == "sync.(*Mutex).Unlock" || n == "sync.(*RWMutex).Unlock" || n == "sync.(*RWMutex).RUnlock"
+		isLock := n == "sync.Mutex.Lock" || n == "sync.RWMutex.Lock" || n == "sync.RWMutex.RLock"
+		isUnlock := n == "sync.Mutex.Unlock" || n == "sync.RWMutex.Unlock" || n == "sync.RWMutex.RUnlock"
 		if !isLock && !isUnlock {
 			return
 		}
@@ -474,6 +525,24 @@ func (sa *sharedAnalysis) collect(scope map[*ssa.Function]bool) {
 					}
 				}
 			case ssa.CallInstruction:
+				// a method of an unsynchronised standard-library value type called on a shared object
+				if sc := x.Common().StaticCallee(); sc != nil && !fnInModule(sc) && sc.Signature.Recv() != nil && len(x.Common().Args) > 0 {
+					if tn := unsyncValueType(sc.Signature.Recv().Type()); tn != "" {
+						recv := x.Common().Args[0]
+						write := !readOnlyMethods[sc.Name()]
+						if l := locOf(recv); l != "" {
+							if sa.sharedBase(baseOf(recv), 0) {
+								sa.add(l, write, ins, tn+"."+sc.Name())
+							}
+						} else if sa.sharedBase(recv, 0) {
+							locs := map[string]bool{}
+							containerLocs(recv, 0, locs)
+							for l := range locs {
+								sa.add(l, write, ins, tn+"."+sc.Name())
+							}
+						}
+					}
+				}
 				// builtin delete/copy/append on shared containers
 				if b, ok := x.Common().Value.(*ssa.Builtin); ok {
 					switch b.Name() {
@@ -734,4 +803,53 @@ var carriedAllowedAverages = map[string]string{
 	"node.Pegnetd.LastAverages":         "rolling-average cache: its restart dependence is the known finding recorded under C09; it is filled from committed rows of earlier heights only, so a rolled-back attempt leaves it as a committed one would",
 	"node.Pegnetd.LastAveragesData":     "see LastAverages",
 	"node.Pegnetd.LastAveragesHeight":   "see LastAverages",
+}
+
+// unsyncValueType names the standard-library value types whose methods mutate the receiver without any
+// synchronisation of their own (a shared instance is a shared location like any field).
+func unsyncValueType(t types.Type) string {
+	if p, ok := t.(*types.Pointer); ok {
+		t = p.Elem()
+	}
+	n, ok := t.(*types.Named)
+	if !ok || n.Obj().Pkg() == nil {
+		return ""
+	}
+	switch n.Obj().Pkg().Path() + "." + n.Obj().Name() {
+	case "math/big.Int", "math/big.Rat", "math/big.Float", "bytes.Buffer", "strings.Builder", "math/rand.Rand",
+		"container/list.List", "container/ring.Ring", "bufio.Writer", "bufio.Reader", "encoding/json.Encoder", "encoding/json.Decoder":
+		return n.Obj().Pkg().Name() + "." + n.Obj().Name()
+	}
+	return ""
+}
+
+var readOnlyMethods = map[string]bool{"Cmp": true, "CmpAbs": true, "Sign": true, "IsInt64": true, "IsUint64": true, "Int64": true, "Uint64": true,
+	"String": true, "Text": true, "Bytes": true, "BitLen": true, "Len": true, "Cap": true, "Bit": true, "Bits": true, "IsInt": true,
+	"Num": true, "Denom": true, "Float64": true, "Append": true, "Format": true, "MarshalJSON": true, "MarshalText": true, "ProbablyPrime": false}
+
+// spilledParam: v is a parameter, or the load of a local that only ever holds one (a parameter captured by a
+// closure or defer lives in an Alloc).
+func spilledParam(v ssa.Value) *ssa.Parameter {
+	if p, ok := v.(*ssa.Parameter); ok {
+		return p
+	}
+	u, ok := v.(*ssa.UnOp)
+	if !ok || u.Op != token.MUL {
+		return nil
+	}
+	a, ok := u.X.(*ssa.Alloc)
+	if !ok || a.Referrers() == nil {
+		return nil
+	}
+	var par *ssa.Parameter
+	for _, rf := range *a.Referrers() {
+		if st, ok := rf.(*ssa.Store); ok && st.Addr == a {
+			p, ok := st.Val.(*ssa.Parameter)
+			if !ok || (par != nil && par != p) {
+				return nil
+			}
+			par = p
+		}
+	}
+	return par
 }
